@@ -33,7 +33,7 @@ def drain(gen_):
         return evs, stop.value
 
 
-def history_failure(history, schedule_rnd=None):
+def history_failure(history, schedule_rnd=None, only=None):
     """run the decodes of `history` (list of cases; equal cases = same arguments) sequentially, or step-wise interleaved
     under a seeded schedule; returns a description if two decodes of equal arguments give unequal events/objects"""
     from tpmstream.common.object import events_to_obj
@@ -53,6 +53,8 @@ def history_failure(history, schedule_rnd=None):
                 live.pop(k)
     for i in range(len(history)):
         for j in range(i + 1, len(history)):
+            if only is not None and (i, j) != only:
+                continue
             if history[i] == history[j]:
                 (e1, o1), (e2, o2) = results[i], results[j]
                 if e1 != e2:
@@ -92,10 +94,43 @@ def run(ctx, replay_case):
         c = M.command(cc, nsess=rnd.choice([0, 1]))
         if c:
             pool_plain.append(("Command", None, False, c[1]))
+    # every command / response of every command code under an encrypting session: each asks the cache for its own class
+    # (also the ones whose layout stays as it is), so together they walk through any bounded cache
+    pool_all = []
+    for cc in M.ccs:
+        c = M.command(cc, nsess=1, decrypt=True)
+        if c:
+            pool_all.append(("Command", None, False, c[1]))
+        r = M.response(cc, nsess=1, encrypt=True)
+        if r:
+            pool_all.append(("Response", cc, True, r[1]))
     nh = 300 if ctx.tier == "quick" else 3000
     failures = 0
     shapes = collections.Counter()
     samples = []
+    for h in range(2 if ctx.tier == "quick" else 12):
+        a = rnd.choice(pool_enc)
+        others = [p for p in pool_all if p != a]
+        rnd.shuffle(others)
+        hist = [a] + others + [a]
+        shapes["A,<every other class>,A"] += 1
+        bad = history_failure(hist, None, only=(0, len(hist) - 1))
+        if bad:
+            failures += 1
+            # shrink: shortest prefix of `others` that still separates the two decodes of A
+            lo, hi = 0, len(others)
+            while lo < hi:
+                mid = (lo + hi) // 2
+                if history_failure([a] + others[:mid] + [a], None, only=(0, mid + 1)):
+                    hi = mid
+                else:
+                    lo = mid + 1
+            hist = [a] + others[:lo] + [a]
+            ctx.violations.append({"kind": "concrete", "signature": "history:eviction",
+                                   "what": f"history A, {lo} decodes of other messages with encrypted parameter areas, A: {bad}",
+                                   "replay": {"history": [(p[0], p[1], p[2], p[3].hex()) for p in hist], "shape": "A,others,A",
+                                              "others_needed": lo,
+                                              "how": "decode the listed inputs in order in one process and compare the first and the last"}})
     for h in range(nh):
         kind = rnd.choice(["ABA", "ABA", "ABCA", "ABAB", "AxA", "interleaved2", "interleaved3", "stream"])
         a, b, c = rnd.sample(pool_enc, 3)
@@ -154,7 +189,7 @@ def run(ctx, replay_case):
                 "rebuilt by events_to_obj must be the decoder's; non-trivial = at least two different encrypted areas in the history",
         "samples": samples,
         "correspondence": {"cache_capacity_read_from_source": cap, "model": "Cache.run over the class names of the history"},
-        "distribution": {"shapes": dict(shapes), "encrypted_area_kinds": len(pool_enc), "failures": failures},
+        "distribution": {"shapes": dict(shapes), "encrypted_area_kinds": len(pool_enc), "classes_under_encryption": len(pool_all), "failures": failures},
     })
 
 
